@@ -28,14 +28,23 @@ class FakeOS (object):
   os.write / os.read) runs on modelled pipes: write makes the read end readable, read blocks on an empty pipe."""
   name = "posix"
   def __init__ (self, S):
-    self.S = S; self.pipes = {}; self.next = 1000
+    self.S = S; self.pipes = {}; self.next = 1000; self.nonblock = set()
   def pipe (self):
     r, w = self.next, self.next + 1; self.next += 2
     buf = [0]
     self.pipes[r] = buf; self.pipes[w] = buf
     return (r, w)
+  def set_blocking (self, fd, flag):
+    if fd not in self.pipes:
+      import os as _os; return _os.set_blocking(fd, flag)
+    (self.nonblock.discard if flag else self.nonblock.add)(fd)
   def write (self, fd, data):
-    self.S.point("os.write"); self.pipes[fd][0] += len(data); return len(data)
+    self.S.point("os.write")
+    buf = self.pipes[fd]
+    if buf[0] + len(data) > PIPE_CAP:
+      if fd in self.nonblock: raise BlockingIOError(11, "Resource temporarily unavailable")
+      self.S.block(lambda: buf[0] + len(data) <= PIPE_CAP, what="write to a full pipe")
+    buf[0] += len(data); return len(data)
   def read (self, fd, n):
     S = self.S
     S.point("os.read")
@@ -264,6 +273,7 @@ class SeqPipes (object):
   name = "posix"
   def __init__ (self):
     self.pipes = {}; self.next = 10 ** 6; self.overflow = False; self.empty_reads = 0; self.reads = 0
+    self.nonblock = set(); self.eagain = 0
   def pipe (self):
     r, w = self.next, self.next + 1; self.next += 2
     buf = [0]
@@ -272,7 +282,10 @@ class SeqPipes (object):
   def write (self, fd, data):
     buf = self.pipes[fd]
     if buf[0] + len(data) > PIPE_CAP:
-      self.overflow = True
+      if fd in self.nonblock:             # the library asked for a write that never waits: EAGAIN is its to handle
+        self.eagain += 1
+        raise BlockingIOError(11, "Resource temporarily unavailable")
+      self.overflow = True                # a blocking write that only the calling thread could ever satisfy
       raise BlockingIOError("write to a full pipe")
     buf[0] += len(data); return len(data)
   def read (self, fd, n):
@@ -284,6 +297,10 @@ class SeqPipes (object):
     k = min(n, buf[0]); buf[0] -= k
     return b" " * k
   def close (self, fd): pass
+  def set_blocking (self, fd, flag):
+    if fd not in self.pipes:
+      import os as _os; return _os.set_blocking(fd, flag)
+    (self.nonblock.discard if flag else self.nonblock.add)(fd)
   def readable (self, o):
     b = self.pipes.get(o.fileno() if hasattr(o, "fileno") else o); return bool(b and b[0] > 0)
   def __getattr__ (self, n):
@@ -425,6 +442,10 @@ def pile_plans (quick):
     # (piles of tasks stop at 4097: the library's ready-queue membership tests make them quadratic)
     for n in pile_lattice(PIPE_CAP if src in srcs else 4097):
       ps.append(((src, n, None),))
+    # ... and past it: pings that no longer fit into the pipe must neither block the pinging thread nor lose work
+    if src in srcs:
+      for n in (PIPE_CAP + 1, PIPE_CAP + 2, PIPE_CAP + 1025):
+        ps.append(((src, n, None),))
   # two piles, the second arriving in every phase of the handling of the first
   sizes = (1, 1023, 1024, 1025, 2049) if quick else (1, 2, 3, 1023, 1024, 1025, 2047, 2048, 2049, 4097)
   gaps = tuple(range(0, 9)) + (None,)
